@@ -297,18 +297,24 @@ def run_encap(rep, tier):
         "logix-open/plc-info": ("logix-fresh", lambda wd: wd.d.open(), W.CMD_RRDATA),
         "logix-open/plc-name": ("logix-fresh", lambda wd: wd.d.open(), W.CMD_UNITDATA),
     }
+    ops["write-multi"] = ("logix", lambda wd: wd.d.write(("a_dint", 3), ("an_ary{4}", [1, 2, 3, 4])), W.CMD_UNITDATA)
+    ops["writefrag"] = ("logix", lambda wd: wd.d.write("big{900}", list(range(900))), W.CMD_UNITDATA)
+    ops["rmw"] = ("logix", lambda wd: wd.d.write("a_dint.3", True), W.CMD_UNITDATA)
     for name, (drv, thunk, cmd) in ops.items():
-        for es in ENCAP:
+        for es, body_kept in [(e, False) for e in ENCAP] + [(e, True) for e in ENCAP]:
             for nth in (1, 2):
                 wd = World("logix", upload=False) if drv == "logix-fresh" else World(drv)
                 if drv != "logix-fresh":
                     call(wd.d.open)
                 state = {"n": 0}
 
-                def hook(fr, reply, es=es, cmd=cmd, nth=nth, state=state):
+                def hook(fr, reply, es=es, cmd=cmd, nth=nth, state=state, body_kept=body_kept):
                     if fr.command == cmd:
                         state["n"] += 1
                         if state["n"] == nth:
+                            if body_kept and reply and len(reply) >= 24:
+                                # the whole (otherwise successful) reply, but the encapsulation header reports an error
+                                return reply[:8] + struct.pack("<I", es) + reply[12:]
                             return W.build_frame(fr.command, fr.session, b"", status=es, context=fr.context)
                     return reply
                 wd.t.reply_hook = hook
@@ -326,9 +332,9 @@ def run_encap(rep, tier):
                         probs.append(("error-accepted", f"encapsulation status {es:#x} on reply #{nth} but the call reports success: {out!r:.100}"))
                     elif out[0] == "ok" and name not in ("list-identity",) and not name.startswith("logix-open") and not (isinstance(error_of(out), str) and error_of(out)):
                         probs.append(("empty-error", f"encapsulation status {es:#x}: falsy result without an error text: {out!r:.100}"))
-                rep.case(("encap", name, es, nth), nontrivial=hit, outcome="ok" if not probs else probs[0][0])
+                rep.case(("encap", name, es, nth, body_kept), nontrivial=hit, outcome="ok" if not probs else probs[0][0])
                 for clause, detail in probs:
-                    rep.violation(f"encapsulation-error/{name}/{clause}", f"{name}: {detail}", {"kind": "encap", "name": name, "es": es, "nth": nth})
+                    rep.violation(f"encapsulation-error/{name}/{clause}" + ("/body-kept" if body_kept else ""), f"{name}: {detail}" + (" (reply body present)" if body_kept else ""), {"kind": "encap", "name": name, "es": es, "nth": nth})
                 wd.close()
     rep.sample({"encapsulation_errors": list(ops), "statuses": list(ENCAP)})
 
